@@ -21,11 +21,12 @@ exactly the UPDATEs of that transaction.
 """
 import itertools, json, os, re, sqlite3, threading, traceback
 
-from pony.orm import Database, Required, Optional, PrimaryKey, db_session, commit, flush, rollback
+from pony.orm import Database, Required, Optional, PrimaryKey, db_session, commit, flush, rollback, select
 from pony.orm import core
 import ponyutil
 
 tl = threading.local()
+QN = [0]
 
 # index = model attribute number
 ATTRS = [('a', 'int'), ('b', 'int-null'), ('c', 'float'), ('d', 'int-nonopt'), ('e', 'float-opt'),
@@ -290,6 +291,19 @@ def do_op(ctx, op):
         ctx.objs[o] = obj
         if (o, op['a']) not in ctx.written: ctx.seen.setdefault((o, op['a']), op['v'])
         return 'ok', 1
+    if k == 'select':                   # select(x for x in E if x.a == v)[.for_update()][:]; `x.id != n` with a fresh n keeps the
+        name = NAMES[op['a']]           # query-result cache of the session from answering (the model has no such cache)
+        val = dec(KIND[name], op['v'])
+        QN[0] -= 1; n = QN[0]
+        q = select(x for x in E if getattr(x, name) == val and x.id != n)
+        if op['fu']: q = q.for_update()
+        found = q[:]
+        for obj in found:
+            o = obj.id
+            ctx.objs[o] = obj
+            if op['fu']: ctx.locked.add(o)
+            if (o, op['a']) not in ctx.written: ctx.seen.setdefault((o, op['a']), op['v'])
+        return 'ok', sum(2 ** obj.id for obj in found)
     if k == 'write':
         obj = ctx.objs.get(op['o'])
         if obj is None: return 'notLoaded', None
@@ -457,7 +471,11 @@ def gen_case(rng, uid):
                 r = rng.random()
                 o = rng.choice(objs)
                 if o not in loaded and r < 0.9:
-                    if rng.random() < 0.15:
+                    if rng.random() < 0.12:
+                        a = rng.choice(hot)
+                        prog.append({'k': 'select', 'a': a, 'v': rows[o][a], 'fu': rng.random() < 0.2})
+                        loaded.update(x for x in OBJS if rows[x][a] == rows[o][a])
+                    elif rng.random() < 0.15:
                         a = rng.choice(hot)
                         prog.append({'k': 'find', 'o': o, 'a': a, 'v': rng.choice([rows[o][a], rows[o][a], 0, 1])})
                         if prog[-1]['v'] == rows[o][a]: loaded.add(o)
@@ -475,7 +493,10 @@ def gen_case(rng, uid):
                 elif r < 0.88: prog.append({'k': 'fetch', 'o': o, 'as': sorted(rng.sample(range(len(ATTRS)), rng.choice([1, 2, len(ATTRS)])))})
                 elif r < 0.93: prog.append({'k': 'get', 'o': o, 'fu': rng.random() < 0.5})
                 elif r < 0.95: prog.append({'k': 'rollback'}); loaded = set()
-                elif r < 0.98: prog.append({'k': 'find', 'o': o, 'a': a, 'v': rng.choice([rows[o][a], 0, 1, 2])})
+                elif r < 0.97: prog.append({'k': 'find', 'o': o, 'a': a, 'v': rng.choice([rows[o][a], 0, 1, 2])})
+                elif r < 0.995:
+                    prog.append({'k': 'select', 'a': a, 'v': rng.choice([rows[o][a], rows[o][a], 0, 1]), 'fu': rng.random() < 0.25})
+                    loaded.update(x for x in OBJS if rows[x][a] == prog[-1]['v'])
                 else: prog.append({'k': 'read', 'o': o, 'a': rng.randrange(len(ATTRS))})
             prog.append({'k': 'close'})
         progs.append(prog)
@@ -507,6 +528,11 @@ def template_cases(rng, limit):
     pairs.append(([G, wr(0, 52), C], [G, wr(0, 62), C]))                               # blind writes
     for a in (0, 1, 6, 7):
         pairs.append(([{'k': 'find', 'o': 1, 'a': a, 'v': 1}, wr((a + 1) % len(ATTRS), 59), C], [G, wr(a, 69), C]))   # attribute read by a search criterion
+    for a in (0, 1, 4, 6):
+        S = {'k': 'select', 'a': a, 'v': 1, 'fu': False}; SU = {'k': 'select', 'a': a, 'v': 1, 'fu': True}
+        w = (a + 1) % len(ATTRS)
+        pairs.append(([S, wr(w, 70), C], [G, wr(a, 80), C]))                             # attribute read by a query criterion (_set_rbits)
+        pairs.append(([SU, K, wr(w, 71), C], [G, wr(a, 81), C]))                         # Query.for_update; the exemption ends at commit
     pairs.append(([GU, rd(0), wr(0, 53), C], [G, rd(0), wr(0, 63), C]))                # locked for update
     pairs.append(([G, rd(0), K, wr(0, 54), C], [G, rd(0), wr(0, 64), C]))              # second transaction of a session
     pairs.append(([GU, rd(0), K, wr(1, 57), C], [G, wr(0, 67), C]))                    # the for_update exemption ends at commit
@@ -627,7 +653,7 @@ def shrink(env, case, kinds):
         except Exception: return False
         got = {v['kind'] for v in env.violations} | {b['kind'] for b in commit_oracle(trace)}
         return bool(got & kinds)
-    best = case; budget = 60
+    best = case; budget = 90
     changed = True
     while changed and budget > 0:
         changed = False
@@ -638,6 +664,21 @@ def shrink(env, case, kinds):
                 c = dict(best, progs=[list(p) for p in best['progs']])
                 del c['progs'][t][i]
                 if fails(c): best = c; changed = True; break
+    # the schedule: no explicit picks (round-robin drain), else op-level picks, else drop chunks of picks
+    for cand in ([], [100 + (p % 100) for p in best['picks']]):
+        if budget > 0 and cand != best['picks']:
+            budget -= 1
+            c = dict(best, picks=cand)
+            if fails(c): best = c; break
+    size = max(1, len(best['picks']) // 2)
+    while size >= 1 and budget > 0 and best['picks']:
+        i = 0; removed = False
+        while i < len(best['picks']) and budget > 0:
+            budget -= 1
+            c = dict(best, picks=best['picks'][:i] + best['picks'][i + size:])
+            if fails(c): best = c; removed = True
+            else: i += size
+        if not removed or size == 1: size //= 2
     return best
 
 
@@ -699,7 +740,7 @@ def run_cases(ctx, env, cases, label, follow=True):
             if pcs[s['t']] < len(prog):
                 op = prog[pcs[s['t']]]
                 lab = op['k'] + ('-for-update' if op.get('fu') else '')
-                if op['k'] in ('read', 'write', 'find'): lab += ':' + ATTRS[op['a']][1]
+                if op['k'] in ('read', 'write', 'find', 'select'): lab += ':' + ATTRS[op['a']][1]
                 ctx.count('op:%s:%s%s' % (lab, s['res'] if not s['res'].startswith('crash') else 'crash', ('=%s' % s['v']) if op['k'] == 'find' and s['res'] == 'ok' else ''))
                 if s['res'] in ('ok', 'notLoaded'): pcs[s['t']] += 1
             for e in s['events']:
